@@ -129,7 +129,8 @@ Theorem C08_hybrid_columns_independent :
 Proof. exact @hy_run_columns. Qed.
 Print Assumptions C08_hybrid_columns_independent.
 
-(* HybridShard = FullyShard + DDP: under no_starvation the run of the mesh exists (no collective blocks) and every rank
+(* HybridShard = FullyShard + DDP: for EVERY history (the skip rule as repaired, F6: starving steps included) the run of the
+   mesh exists (no collective blocks) and every rank
    (i, s) ends with the values and counter of the FullyShard-only optimizer of shard coordinate s whose quantity handed to
    update_params is rounded to the communication dtype (identity for FP32), and with its state on the blocks it owns. *)
 Theorem C08_hybrid_eq_fully_plus_ddp :
@@ -141,7 +142,6 @@ Theorem C08_hybrid_eq_fully_plus_ddp :
   (forall s b, s < S -> b < hnb nblk S gshapes s -> owner s b < gs) ->
   (forall s, s < S -> length (v0 s) = hnb nblk S gshapes s /\ length (st0 s) = hnb nblk S gshapes s) ->
   (forall s, s < S -> Forall (fs_wf_input nblk (hls S gshapes s)) (map (fun pgs => pgs s) H)) ->
-  hy_no_starvation S (hP nblk dv ds bq cast apply2 R S gs gshapes owner nbytes) (map (hentry_of nblk S gshapes) H) ->
   exists c,
     hy_run R S (hP nblk dv ds bq cast apply2 R S gs gshapes owner nbytes) (map (hentry_of nblk S gshapes) H)
            (hy_init R S v0 st0 b0) = Some c /\
@@ -156,6 +156,16 @@ Theorem C08_hybrid_eq_fully_plus_ddp :
              nth b (sts (cget c (hrank S i s))) ds = nth b (g_sts fs) ds.
 Proof. exact @hybrid_eq_fully_plus_ddp. Qed.
 Print Assumptions C08_hybrid_eq_fully_plus_ddp.
+
+(* The hypothesis hy_no_starvation of the two theorems below (stated for any family of per-column C06 parameters) holds for
+   the parameters of the code as it is (column_params: p_global_skip = true) and every history. *)
+Theorem C08_hybrid_every_history_synchronised :
+  forall (bstate value grad : Type) (nblk : list Z -> nat) (dv : value) (ds : bstate)
+         (bq : Z -> bstate -> value -> grad -> bstate * value) (cast : value -> value) (apply2 : value -> value -> value)
+         (R S gs : nat) (gshapes : list (list Z)) (owner : nat -> nat -> nat) (nbytes : nat -> nat) (h : list hentry),
+  hy_no_starvation S (hP nblk dv ds bq cast apply2 R S gs gshapes owner nbytes) h.
+Proof. exact @hP_every_history_synchronised. Qed.
+Print Assumptions C08_hybrid_every_history_synchronised.
 
 (* All replicas of a shard coordinate hold identical local shards and step counters (any per-column C06 parameters, any
    communication dtype), and the ranks of a comms group have issued the same all-gathers. *)
